@@ -200,6 +200,17 @@ def adapt_shape():
                     out.append(("convert-if", ast.unparse(n.test)))
                     conv = [c for x in n.body for c in ast.walk(x) if isinstance(c, ast.Call) and dotted(c.func).endswith("convert_version")]
                     out += [("convert-call", ast.unparse(c)) for c in conv]
+                    # every other statement of the conversion branch that is a bare call (a step applied to the
+                    # converted model) - and the normalised text of the helper it calls
+                    for x in n.body:
+                        if isinstance(x, ast.Expr) and isinstance(x.value, ast.Call):
+                            out.append(("convert-step", ast.unparse(x.value)))
+                            callee = dotted(x.value.func)
+                            helper = next((f for f in mod.body if isinstance(f, ast.FunctionDef) and f.name == callee), None)
+                            if helper is not None:
+                                if helper.body and isinstance(helper.body[0], ast.Expr) and isinstance(helper.body[0].value, ast.Constant):
+                                    helper.body = helper.body[1:]
+                                out.append((f"helper:{callee}", ast.unparse(helper)))
             if isinstance(n, ast.Return):
                 n_ret += 1
                 if isinstance(n.value, ast.Name) and n.value.id == protos:
